@@ -436,7 +436,7 @@ func hexEscapeNonASCII(s string) string {
 	var b strings.Builder
 	for i := 0; i < len(s); i++ {
 		if s[i] >= 0x80 {
-			fmt.Fprintf(&b, "%%%02X", s[i])
+			fmt.Fprintf(&b, "%%%02x", s[i])
 		} else {
 			b.WriteByte(s[i])
 		}
